@@ -1051,7 +1051,7 @@ pub fn random_val(rng: &mut Rng, t: &DynTy, width: usize) -> DynVal {
 
 fn same_key(a: &DynVal, b: &DynVal) -> bool {
     match (a, b) {
-        (DynVal::F64(x), DynVal::F64(y)) => x.f64().to_string() == y.f64().to_string(),
+        (DynVal::F64(x), DynVal::F64(y)) | (DynVal::F32(x), DynVal::F32(y)) => x.f64() == y.f64() || (x.f64().is_nan() && y.f64().is_nan()),
         (DynVal::Newtype(x), DynVal::Newtype(y)) => same_key(x, y),
         (a, b) => a == b,
     }
